@@ -54,6 +54,8 @@ macro_rules! impl_vec1view_for_ndarray {
 
             #[inline]
             unsafe fn uget(&self, index: usize) -> T { unsafe {
+                #[cfg(feature = "verif-hooks")]
+                crate::verif_hooks::check_idx(index, self.len(), "ndarray.uget");
                 self.uget(index).clone()
             }}
 
@@ -227,6 +229,15 @@ impl<T: Clone> Vec1<T> for Array1<T> {
 
     #[inline]
     fn uninit(len: usize) -> Self::Uninit {
+        #[cfg(feature = "verif-hooks")]
+        {
+            let mut arr = Array1::<T>::uninit(len);
+            if let Some(slc) = arr.as_slice_mut() {
+                unsafe { crate::verif_hooks::poison(slc.as_mut_ptr(), len) };
+            }
+            return arr;
+        }
+        #[allow(unreachable_code)]
         Array1::uninit(len)
     }
 
@@ -260,6 +271,8 @@ impl<T: Clone> UninitVec<T> for Array1<MaybeUninit<T>> {
     #[inline]
     unsafe fn uset(&mut self, idx: usize, v: T) {
         unsafe {
+            #[cfg(feature = "verif-hooks")]
+            crate::verif_hooks::check_idx(idx, self.len(), "ndarray.uset");
             let ele = self.uget_mut(idx);
             ele.write(v);
         }
@@ -270,6 +283,8 @@ impl<T> UninitRefMut<T> for ArrayViewMut1<'_, MaybeUninit<T>> {
     #[inline]
     unsafe fn uset(&mut self, idx: usize, v: T) {
         unsafe {
+            #[cfg(feature = "verif-hooks")]
+            crate::verif_hooks::check_idx(idx, self.len(), "ndarray.uset");
             let ele = self.uget_mut(idx);
             ele.write(v);
         }
